@@ -73,7 +73,10 @@ def corr_suite(ctx, suite, ncases, nops, malformed, catalogue, scripted=()):
                 if line is None:
                     rig.refresh(dt)
                 else:
-                    rig.feed(line + '\r\n', dt)
+                    rig.feed(line if line.endswith('\r\n') else line + '\r\n', dt)
+            if catalogue:
+                for q in QUERIES:
+                    rig.feed(q + '\r\n', 0)
             cases.append(rig.case_term())
             ctx.count(suite + '/scripted')
         finally:
@@ -308,13 +311,40 @@ def record_history(ctx, seed, nops, malformed):
     return trace
 
 
+def family_traces(rng, t0=1000.0, full=True, sample=None):
+    rig = H.Rig()
+    try:
+        lim = H.limits(rig)
+    finally:
+        rig.close()
+    combos = []
+    for sv, l in lim.items():
+        for st in H.MODES + (H.PHASES if l[4] else ()):
+            combos.append((sv, st))
+    if sample is not None:
+        must = [('PFP', 'during'), ('DR_GFR2', 'ended-unseen'), ('SRP', 30)]
+        combos = must + rng.sample([c for c in combos if c not in must], max(0, sample - len(must)))
+    out = []
+    nref = len(H.refusals('PFP', lim, t0))
+    for sv, st in combos:
+        out.append(H.family_trace(sv, st, lim, t0))                              # all refusals in a row
+        if full:
+            k = rng.randrange(nref) if st not in H.PHASES else rng.choice([0, 0, 1, 2, 4, rng.randrange(nref)])
+            out.append(H.family_trace(sv, st, lim, t0, which=k))                   # a single refusal
+    return [[[None if l is None else l + '\r\n', dt] for l, dt in tr] for tr in out]
+
+
 def c02_oracle(ctx):
+    fam = family_traces(random.Random(ctx.rng.randrange(1 << 30)))
+    for tr in fam:
+        c02_check(ctx, tr, 1)
+    ctx.count('msv-c02/family-oracle', len(fam))
     n = ctx.n(30, 500)
     for _ in range(n):
         seed = ctx.rng.randrange(1 << 30)
         tr = record_history(ctx, seed, random.Random(seed).choice([8, 20, 40]), 0.25)
         c02_check(ctx, tr, seed)
-    ctx.oracle_stats['c02_ms'] = dict(histories=n, queries=n * len(QUERIES))
+    ctx.oracle_stats['c02_ms'] = dict(histories=n + len(fam), queries=(n + len(fam)) * len(QUERIES))
     ctx.evaluations += n
 
 
